@@ -4,6 +4,8 @@ Rust source, build of the Coq comparison with the WHATWG lists, and naming of th
     import treetables
     ok = treetables.regen(ck)          # runs gen/gen_treetables.py; False + ck.broken entry on TRANSLATE-ERROR
     ok = treetables.build_inst(ck)     # builds coq/Inst/InstTreeTables.vo; on failure names table + cells
+    ok = treetables.build_findings(ck) # builds coq/Inst/FindingsTreeTables.vo (the listed deviations are still present);
+                                       # a failure is NOT appended to ck.broken: it means a finding no longer reproduces
     w  = treetables.witness(ck)        # {group: printed list of (lemma name, (only in html5ever, only in standard))}
     treetables.setup(ck)               # regen + build_inst, fills ck.notes / ck.cov / ck.broken
 
@@ -21,6 +23,7 @@ from vcommon import ROOT, COQ
 GEN = os.path.join(ROOT, "gen", "gen_treetables.py")
 GEN_FILES = ["GenTagSets.v", "GenQuirks.v", "GenAdjust.v", "GenDispatch.v"]
 INST = "Inst/InstTreeTables.vo"
+FINDINGS = "Inst/FindingsTreeTables.vo"
 WITNESS = "Inst/WitnessTreeTables.vo"
 
 TRUSTED = [
@@ -62,7 +65,7 @@ def witness(ck):
         ck.broken.append("Inst/WitnessTreeTables.v does not compile: " + "\n".join(out.strip().splitlines()[-8:]))
         return res
     flat = re.sub(r"\s+", " ", out)
-    for m in re.finditer(r'= \("(FAILING [\w ]+|SIZES)", (.*?)\) : ', flat):
+    for m in re.finditer(r'= \("((?:FAILING|STALE) [\w ]+|SIZES)", (.*?)\) : ', flat):
         res[m.group(1)] = m.group(2).strip()
     return res
 
@@ -95,11 +98,12 @@ def _split_top(val):
     return parts
 
 
-def failing(w):
-    """names of the Inst lemmas that fail according to a witness dict, with their cells"""
+def failing(w, kind="FAILING"):
+    """names of the Inst lemmas that fail according to a witness dict, with their cells
+    (kind="STALE": exceptions of Deviations.v that are no longer exactly present)"""
     bad = {}
     for grp, val in w.items():
-        if not grp.startswith("FAILING") or val == "[]":
+        if not grp.startswith(kind) or val == "[]":
             continue
         if grp == "FAILING split discipline":
             bad["split_discipline_all_modes"] = val
@@ -140,16 +144,37 @@ def build_inst(ck):
     return False
 
 
+def build_findings(ck):
+    """the deviations listed in TreeTables/Deviations.v are still present, exactly.  Returns True/False; on False a note
+    (not a broken obligation) says which finding no longer reproduces."""
+    ok, out = ck.coq_make([FINDINGS])
+    if ok:
+        return True
+    m = re.search(r'File "\./([^"]+)", line (\d+)', out)
+    w = witness(ck)
+    st = failing(w, "STALE")
+    ck.cov["treetables_stale_findings"] = st
+    ck.notes.append("treetables: a listed deviation of html5ever from the standard no longer reproduces exactly "
+                    "(Inst/FindingsTreeTables.v fails at %s): %s" % ("%s:%s" % (m.group(1), m.group(2)) if m else "?",
+                                                                      json.dumps(st)[:1000]))
+    return False
+
+
 def setup(ck):
     """regenerate + build; returns True iff every table agrees with the standard (up to the named exceptions)"""
     if not regen(ck):
         return False
-    return build_inst(ck)
+    ok = build_inst(ck)
+    if ok:
+        build_findings(ck)
+    return ok
 
 
 if __name__ == "__main__":
     ck = vcommon.Check("C02T", sys.argv[1:])
     ok = setup(ck)
     print(json.dumps({"ok": ok, "broken": ck.broken, "failing": ck.cov.get("treetables_failing", {}),
+                      "stale_findings": ck.cov.get("treetables_stale_findings", {}),
+                      "notes": [n for n in ck.notes if "no longer reproduces" in n],
                       "info": ck.cov.get("treetables")}, indent=1))
     sys.exit(0 if ok else 1)
